@@ -40,9 +40,7 @@ EcdsaVerify(Q, e, r, s) ==
      IN R # Inf /\ R[1] % N = r
 
 (* --------------------------------------------------------------- recovering *)
-\* Let({ e(v) : v \in {a} }) is "LET v == a IN e(v)" with a evaluated ONCE (TLC re-evaluates a LET
-\* definition or an operator argument at every use when it checks invariants).
-Let(S) == CHOOSE v \in S : TRUE
+Let(S) == Let1(S)          \* eager LET, see MsgText
 
 \* SEC 1 4.1.6 with j = recid \div 2 and the y parity taken from recid % 2:
 \*   r and s must be in 1..N-1 (4.1.4 step 1);
@@ -77,11 +75,10 @@ RecoverCompactV(h, r, s, e) ==
 RecoverCompact(bytes, e) ==
   Let({ RecoverCompactV(bytes[1], r, s, e) : r \in {BEValAt(bytes, 1)}, s \in {BEValAt(bytes, 33)} })
 \* MessageVerify: recover, then compare with the key / with the address (key AND form)
-VerifyCompact(who, bytes, e) ==
-  \E rc \in {RecoverCompact(bytes, e)} :
-  /\ rc.ok
-  /\ rc.Q = who.Q
-  /\ (who.kind = "addr" => rc.comp = who.comp)
+VerifyRc(who, rc) == /\ rc.ok
+                     /\ rc.Q = who.Q
+                     /\ (who.kind = "addr" => rc.comp = who.comp)
+VerifyCompact(who, bytes, e) == \E rc \in {RecoverCompact(bytes, e)} : VerifyRc(who, rc)
 \* total over signature TEXT: undecodable or not 65 bytes -> FALSE
 TextClass(cs) == LET dec == B64Decode(cs) IN
                  IF ~dec.ok THEN "not_base64" ELSE IF Len(dec.v) # 65 THEN "wrong_length" ELSE "65"
